@@ -127,7 +127,7 @@ def finish(src, sid, meta, ran, out):
     dst = os.path.join(V, "seeded", sid)
     os.makedirs(dst, exist_ok=True)
     for f in os.listdir(src):
-        if os.path.isfile(os.path.join(src, f)) and f != "meta.json":
+        if os.path.isfile(os.path.join(src, f)) and f != "meta.json" and os.path.realpath(src) != os.path.realpath(dst):
             shutil.copy(os.path.join(src, f), dst)
     prev = {}
     if os.path.exists(os.path.join(dst, "meta.json")):
@@ -147,7 +147,7 @@ def finish(src, sid, meta, ran, out):
     ran = (prev.get("confirmed_by_me") or []) + ["--- later run ---"] + ran if prev.get("confirmed_by_me") else ran
     m = {"check_history": hist, "property": meta.get("property"), "summary": meta.get("summary"), "needs": meta.get("needs"),
          "author": "independent sub-agent given only the property text and a scratch worktree",
-         "author_ran": meta.get("ran"), "confirmed_by_me": ran, "result": out}
+         "author_ran": meta.get("ran") or meta.get("author_ran"), "confirmed_by_me": ran, "result": out}
     json.dump(m, open(os.path.join(dst, "meta.json"), "w"), indent=1)
     print(json.dumps(out, indent=1))
 
